@@ -66,7 +66,9 @@ def gen_case(rng, big):
     return {"matrix": mtx, "objectives": objs, "weights": [1.0] * m, "b": b,
             "alternatives": [f"A{i}" for i in range(n)] if rng.random() < 0.7 else gen.labels(rng, n, [], "Q"),
             "criteria": gen.labels(rng, m, gen.LABEL_POOL_C, "C"),
-            "method": {"name": "simus", "rank_by": rng.choice([1, 2])}, "mode": mode, "tags": ["twin_criteria"] if twins else []}
+            "method": {"name": "simus", "rank_by": rng.choice([1, 2])}, "mode": mode, "tags": ["twin_criteria"] if twins else [],
+            # whole numbers are often stored as integers (the library's own SIMUS example is)
+            **({"dtypes": ["int64"] * m} if mode in ("int", "tiny") and rng.random() < 0.5 else {})}
 
 
 def stage_arg(case, z):
